@@ -7,5 +7,5 @@ open Driver
 /-- families of area "block" -/
 def main (args : List String) : IO UInt32 :=
   run [Fam.Block.rangegrammar, Fam.Block.blockrange, Fam.Block.blockinfo, Fam.Block.rangetuples,
-       Fam.Segment.segments, Fam.Segment.segpath, Fam.Checksum.cksumfile, Fam.Checksum.cksumdir, Fam.Checksum.toolcksum,
+       Fam.Segment.segments, Fam.Segment.seggaps, Fam.Segment.segpath, Fam.Checksum.cksumfile, Fam.Checksum.cksumdir, Fam.Checksum.toolcksum, Fam.Checksum.pgcksum,
        Fam.BlockMal.blockmal] args
